@@ -111,7 +111,7 @@ class World:
     def __init__(self, ch, ctx, cfg, monitors=(), *, profile=None, dealer=None, run_key='k',
                  autos_mask=None, muck_num=1, runout_prefs=(None, 1, 2, 2, 3), partial_show=True,
                  explicit_index_num=1, commentary_num=0, adopt=None, free_showdown_num=1, force_show=False,
-                 commentary_fn=None):
+                 commentary_fn=None, reuse_game=None):
         self.ch = ch
         self.ctx = ctx
         self.cfg = cfg
@@ -147,7 +147,12 @@ class World:
         self._hook_depth = 0
         with observe.session(self._on_op):
             try:
-                self.game, self.state = build(cfg, self.autos_mask)
+                if reuse_game is not None:
+                    # a second table from the SAME game object (the game must not have been changed by earlier tables)
+                    stacks = [conv_stack(cfg, x) for x in cfg['stacks']]
+                    self.game, self.state = reuse_game, reuse_game(stacks if cfg.get('raw_lists') else tuple(stacks), cfg['n'])
+                else:
+                    self.game, self.state = build(cfg, self.autos_mask)
             except Violation:
                 raise
             except Exception as e:      # noqa: BLE001 - the constructor got valid arguments
